@@ -46,6 +46,12 @@ def configs(tier):
     for p in ((12,) if tier == "quick" else (8, 12, 13)):
         for inbred in (True, False):
             out.append(dict(kind="assemble", ploidy=p, inbred=inbred))
+    # the K the assemble prior is evaluated with: the sampler must hand every move ln(number of possible haplotypes), also for
+    # loci with >= 2**63 of them (shared with C01's orchestration group)
+    from checks import c01
+
+    for nal in c01.ORCH_WIDE_NAMES:
+        out.append(dict(kind="orch", group="orch", nal=nal, ploidy=2))
     return out
 
 
@@ -71,6 +77,10 @@ def _setup(ctx, c):
 def run_config(c, col):
     E.use_summaries(True)
     E.reset_modules()
+    if c["kind"] == "orch":
+        from checks import c01
+
+        return c01._run_orch(c, col)
     if c["kind"] == "assemble":
         return _run_assemble(c, col)
     cp = E.load("mchap.calling.prior")
@@ -194,6 +204,10 @@ def replay(v):
     from mchap.calling import prior as rp
     from mchap.assemble import prior as ra
 
+    if v["config"]["kind"] == "orch":
+        from checks import c01
+
+        return c01._replay_orch(v)
     c, m, F = _real_inputs(v)
     if c["kind"] == "assemble":
         U = float(m.get("U", 4.0))
